@@ -10,6 +10,7 @@ import Proofs.HandlerWF
 import Proofs.Arrayterator
 import Proofs.CeSrc
 import Proofs.HlibSrc
+import Proofs.HandlerWhole
 namespace Pydap.C15
 open Pydap Pydap.Handler
 
@@ -136,6 +137,42 @@ example : handle intText ⟨cs!"d", [.base { name := cs!"a", ty := cs!"Int32", s
     (cs!"/d.dmr") [] = .answered ∧
     handle intText ⟨cs!"d", [.base { name := cs!"a", ty := cs!"Int32", shape := [3], dims := [], data := [5, 6, 7] }]⟩
     (cs!"/d.dds") (cs!"a.b") = .answered := by decide +kernel
+
+/-- **The empty constraint is valid and is answered with data** (the one "valid constraint ⇒ 200, not the error
+    document" statement proved for all datasets): for every well-formed dataset whose variables have distinct names
+    (pydap keeps them in a dict), every path `<anything>.<ext>` with `ext` one of dds / das / dods / ascii / asc, and the
+    empty query string — or any query string at all when the response is `das`, which drops it — the handler answers
+    200 with that kind and a body that reads to its end.  (Proof: `parse_ce("")` is the empty projection and selection;
+    `apply_selection` leaves the dataset as it is; the projection "every key, whole" collects every variable once, in
+    order — here the distinct names are used; "fix sequence data" finds every column of every sequence in itself; the
+    slice pass has nothing to slice.) -/
+theorem C15_unconstrained_200 (fmt : Int → Str) (ds : Dataset) (hds : ds.WF) (hn : (ds.vars.map Var.name).Nodup)
+    (path query pre ext : Str) (k : Kind) (hp : rsplitDot path = some (pre, ext)) (hk : lookupKind ext = some k)
+    (hko : k ≠ .other) (hq : query = [] ∨ ext = cs!"das") :
+    ∃ text, handle fmt ds path query = .ok k (.complete text) := by
+  obtain ⟨cds, hc⟩ := constrain_whole ds hds hn
+  have hq' : (if ext = cs!"das" then [] else query) = [] := by
+    rcases hq with rfl | h
+    · simp
+    · simp [h]
+  have hcd : constrained ds [] = .ok cds := by
+    have hpc : parseCE [] = .ok ([], []) := by decide
+    simp [constrained, hpc, hc]
+  have hg : guarded ds path query = .ok (k, cds) := by
+    rw [guarded_eq ds path query pre ext hp, hq', hcd]
+    cases k <;> simp_all
+  have hh : handle fmt ds path query = .ok k (bodyOf fmt k cds) := by simp [handle, hg]
+  obtain ⟨t, ht⟩ := C15_body_complete fmt ds hds path query k _ hh
+  exact ⟨t, by rw [hh, ht]⟩
+
+-- non-vacuity: a dataset with an array and a sequence, asked for its DDS with no constraint and for its DAS with one
+example : ∃ text, handle intText ⟨cs!"d", [.base { name := cs!"a", ty := cs!"Int32", shape := [2], dims := [], data := [5, 6] },
+      .seq cs!"s" [(cs!"i", cs!"Int32")] [[1], [2]]]⟩ (cs!"/x/d.dds") [] = .ok .dds (.complete text) :=
+  C15_unconstrained_200 intText _ (by
+      intro v hv; simp at hv; rcases hv with rfl | rfl
+      · exact ⟨rfl, rfl, trivial⟩
+      · intro r hr; simp at hr; rcases hr with rfl | rfl <;> rfl)
+    (by decide) _ _ (cs!"/x/d") (cs!"dds") .dds (by decide) (by decide) (by decide) (.inl rfl)
 
 /-! ### histories: several datasets in one process -/
 
